@@ -26,7 +26,10 @@ def shard(jobs, n):
 def run_jobs(sc, script, jobs, n=None, timeout=900, fast=True):
     n = n or core.NCPU
     sh = shard(jobs, n)
-    results = sc.run_workers(script, [{"jobs": js, "fast_poll": fast} for _, js in sh], timeout=timeout)
+    # a different PYTHONHASHSEED per worker process: set/dict iteration orders (new labels of a continued call,
+    # de-duplicated ids) must not matter
+    results = sc.run_workers(script, [{"jobs": js, "fast_poll": fast} for _, js in sh], timeout=timeout,
+                             hashseeds=[(i * 7919 + 13) % 4294967295 for i in range(len(sh))])
     out = [None] * len(jobs)
     for (ids, _), (status, res) in zip(sh, results):
         if status != "ok":
